@@ -192,6 +192,25 @@ where
     }
 }
 
+/// The span of a parse stack entry, and whether that entry derived any lexemes at all. If it did
+/// not, the span is zero-length and sits at the end of the closest preceding lexeme.
+pub(super) type EntrySpan = (Span, bool);
+
+/// The span of a reduction whose symbols have the spans `kids`, `before` being the spans of
+/// everything to their left: from the start of the first lexeme derived to the end of the last
+/// one, or a zero-length span if no lexeme was derived.
+fn reduce_span(before: &[EntrySpan], kids: &[EntrySpan]) -> EntrySpan {
+    let first = kids.iter().find(|(_, derived)| *derived);
+    let last = kids.iter().rev().find(|(_, derived)| *derived);
+    match (first, last) {
+        (Some((first, _)), Some((last, _))) => (Span::new(first.start(), last.end()), true),
+        _ => {
+            let pos = before.last().map_or(0, |(span, _)| span.end());
+            (Span::new(pos, pos), false)
+        }
+    }
+}
+
 fn action_map<StorageT, LexerTypesT: LexerTypes, Node>(
     ridx: RIdx<StorageT>,
     _lexer: &dyn NonStreamingLexer<LexerTypesT>,
@@ -308,7 +327,7 @@ where
         pstack: &mut PStack<StorageT>,
         astack: &mut Vec<AStackType<LexerTypesT::LexemeT, ActionT>>,
         errors: &mut Vec<LexParseError<StorageT, LexerTypesT>>,
-        spans: &mut Vec<Span>,
+        spans: &mut Vec<EntrySpan>,
     ) -> Option<ActionT> {
         let mut recoverer = None;
         let mut recovery_budget = Duration::from_millis(RECOVERY_TIME_BUDGET);
@@ -328,15 +347,11 @@ where
                     let prior = *pstack.last().unwrap();
                     pstack.push(self.stable.goto(prior, ridx).unwrap());
 
-                    let span = if spans.is_empty() {
-                        Span::new(0, 0)
-                    } else if pop_idx - 1 < spans.len() {
-                        Span::new(spans[pop_idx - 1].start(), spans[spans.len() - 1].end())
-                    } else {
-                        Span::new(spans[spans.len() - 1].start(), spans[spans.len() - 1].end())
-                    };
+                    let (before, kids) = spans.split_at(pop_idx - 1);
+                    let entry_span = reduce_span(before, kids);
+                    let (span, _) = entry_span;
                     spans.truncate(pop_idx - 1);
-                    spans.push(span);
+                    spans.push(entry_span);
 
                     let v = AStackType::ActionType(self.actions[usize::from(pidx)](
                         ridx,
@@ -352,7 +367,7 @@ where
                     pstack.push(state_id);
                     astack.push(AStackType::Lexeme(la_lexeme));
 
-                    spans.push(la_lexeme.span());
+                    spans.push((la_lexeme.span(), true));
                     laidx += 1;
                 }
                 Action::Accept => {
@@ -423,7 +438,7 @@ where
         end_laidx: usize,
         pstack: &mut PStack<StorageT>,
         astack: &mut Option<&mut Vec<AStackType<LexerTypesT::LexemeT, ActionT>>>,
-        spans: &mut Option<&mut Vec<Span>>,
+        spans: &mut Option<&mut Vec<EntrySpan>>,
     ) -> usize {
         assert!(lexeme_prefix.is_none() || end_laidx == laidx + 1);
         while laidx != end_laidx && laidx <= self.lexemes.len() {
@@ -440,21 +455,11 @@ where
                     let pop_idx = pstack.len() - self.grm.prod(pidx).len();
                     if let Some(ref mut astack_uw) = *astack {
                         if let Some(ref mut spans_uw) = *spans {
-                            let span = if spans_uw.is_empty() {
-                                Span::new(0, 0)
-                            } else if pop_idx - 1 < spans_uw.len() {
-                                Span::new(
-                                    spans_uw[pop_idx - 1].start(),
-                                    spans_uw[spans_uw.len() - 1].end(),
-                                )
-                            } else {
-                                Span::new(
-                                    spans_uw[spans_uw.len() - 1].start(),
-                                    spans_uw[spans_uw.len() - 1].end(),
-                                )
-                            };
+                            let (before, kids) = spans_uw.split_at(pop_idx - 1);
+                            let entry_span = reduce_span(before, kids);
+                            let (span, _) = entry_span;
                             spans_uw.truncate(pop_idx - 1);
-                            spans_uw.push(span);
+                            spans_uw.push(entry_span);
 
                             let v = AStackType::ActionType(self.actions[usize::from(pidx)](
                                 ridx,
@@ -483,7 +488,7 @@ where
                             self.next_lexeme(laidx)
                         };
                         astack_uw.push(AStackType::Lexeme(la_lexeme));
-                        spans_uw.push(la_lexeme.span());
+                        spans_uw.push((la_lexeme.span(), true));
                     }
                     pstack.push(state_id);
                     laidx += 1;
@@ -621,7 +626,7 @@ pub(super) trait Recoverer<
         in_laidx: usize,
         in_pstack: &mut PStack<StorageT>,
         astack: &mut Vec<AStackType<LexerTypesT::LexemeT, ActionT>>,
-        spans: &mut Vec<Span>,
+        spans: &mut Vec<EntrySpan>,
     ) -> (usize, Vec<Vec<ParseRepair<LexerTypesT::LexemeT, StorageT>>>);
 }
 
